@@ -11,7 +11,7 @@ A set is described by two atoms `src ov`:
 `hist` = assignments to `.prereleases` (`~`,`0`,`1`) and reading calls (`c`), `-` when empty.
 -/
 namespace DriverSpecSet
-open Py V S SS DriverSpec
+open Py V S SSet DriverSpec
 
 def encErr (e : String) : String :=
   if e == "InvalidSpecifier" || e == "ValueError" then "err " ++ e else "raw " ++ e
